@@ -158,7 +158,101 @@ pub fn bounds_convex(spec: &SpaceSpec) -> bool {
 
 // ------------------------------------------------------------------------------------------
 
+pub fn seq_total(a: u64, d: u32) -> u64 {
+    (1..=d).map(|l| a.pow(l)).sum()
+}
+
+/// n-th sequence (shortest first) over an alphabet of `a` symbols
+pub fn nth_sequence(a: u64, mut n: u64) -> Vec<usize> {
+    let mut len = 1;
+    loop {
+        let c = a.pow(len);
+        if n < c {
+            break;
+        }
+        n -= c;
+        len += 1;
+    }
+    let mut v = vec![];
+    for _ in 0..len {
+        v.push((n % a) as usize);
+        n /= a;
+    }
+    v
+}
+
+pub const FIXTURE_SPACES: [&str; 6] = ["RV", "SO2", "SO3", "SE2", "Compound", "SE3"];
+
+/// A fixed world + alphabet for exhaustive sample-sequence enumeration: everything but the
+/// sequence is a function of (seed, property, fixture number).
+pub fn fixture(prop: &'static str, seed: u64, f: u64, kind: PlannerKind, alpha_size: usize) -> (Scenario, Vec<St>) {
+    let mut rng = Xo::new(mix(seed, &format!("{prop}-fixture"), f));
+    let o = GenOpts {
+        planner: Some(kind),
+        families: vec!["open"],
+        space_kinds: vec![FIXTURE_SPACES[(f % 6) as usize]],
+        max_iters: 8,
+        min_frac: 0.05,
+        goal_sampler: Some(GoalSampler::Fixed),
+        ..Default::default()
+    };
+    let mut scn = gen::base(&mut rng, prop, seed, 0, &o);
+    let ext = scn.param("ext").unwrap_or(1.0);
+    scn.planner.max_distance = ext * rng.range(0.15, 0.45);
+    scn.planner.search_radius = scn.planner.max_distance * rng.range(1.0, 3.0);
+    scn.planner.connection_radius = ext * rng.range(0.3, 0.8);
+    scn.planner.goal_bias = 0.0;
+    scn.clock = ClockSpec { tick_ns: 1000, cost_valid: vec![], cost_sample: vec![], cost_goal: vec![] };
+    let mut geo = geo_for(&scn.space).unwrap();
+    let anchors = vec![scn.problems[0].starts[0].clone(), scn.problems[0].goal.target.clone()];
+    let alpha = alphabet(&*geo, &mut rng, &anchors, alpha_size);
+    let obstructed = (f / 6) % 2 == 0;
+    if obstructed {
+        // an alphabet world: the last alphabet state is invalid, padded with a small ball, plus
+        // one ordinary obstacle
+        scn.worlds[0].obstacles.push(Obstacle::Ball { c: alpha[alpha.len() - 1].clone(), r: 1e-3 * ext });
+        if let Some(c) = geo.sample(&mut rng) {
+            scn.worlds[0].obstacles.push(Obstacle::Ball { c, r: 0.15 * ext });
+        }
+        geo.set_worlds(&scn.worlds);
+        if !geo.valid(0, &anchors[0]) || !geo.valid(0, &anchors[1]) {
+            scn.worlds[0].obstacles.clear();
+        }
+    }
+    scn.params.insert("obstacle_free".into(), if scn.worlds[0].obstacles.is_empty() { 1.0 } else { 0.0 });
+    scn.family = format!("enumerated/{}", if scn.worlds[0].obstacles.is_empty() { "free" } else { "alphabet_world" });
+    (scn, alpha)
+}
+
 impl TreeProp {
+    fn kinds(&self) -> Vec<PlannerKind> {
+        match self.id {
+            "C17" => vec![PlannerKind::RRTStar],
+            _ => vec![PlannerKind::RRT, PlannerKind::RRTConnect, PlannerKind::RRTStar],
+        }
+    }
+    /// (number of fixtures, sequences per fixture, alphabet size, depth)
+    fn enum_layout(&self, tier: Tier) -> (u64, u64, u64, u32) {
+        let (a, d) = if tier == Tier::Thorough { (5u64, 5u32) } else { (4u64, 4u32) };
+        (12 * self.kinds().len() as u64, seq_total(a, d), a, d)
+    }
+    /// EVERY sample sequence up to the bounded depth over the fixture's alphabet
+    fn enumerated(&self, seed: u64, index: u64, tier: Tier) -> Scenario {
+        let (_, per, a, _) = self.enum_layout(tier);
+        let f = index / per;
+        let kinds = self.kinds();
+        let kind = kinds[((f / 12) as usize) % kinds.len()];
+        let (mut scn, alpha) = fixture(self.id, seed, f % 12 + 12 * (f / 12), kind, a as usize);
+        scn.index = index;
+        let seq = nth_sequence(a, index % per);
+        scn.sampling.script = seq.iter().map(|i| alpha[*i].clone()).collect();
+        let solve_ci = scn.calls.iter().position(|c| matches!(c, CallSpec::Solve { .. })).unwrap();
+        set_budget(&mut scn, solve_ci, seq.len() as u64);
+        scn.params.insert("depth".into(), seq.len() as f64);
+        scn.params.insert("enumerated".into(), 1.0);
+        scn
+    }
+
     fn depth(&self, tier: Tier) -> u64 {
         match tier {
             Tier::Quick => 24,
@@ -246,13 +340,15 @@ impl Check for TreeProp {
             "C16" => "every transition T_i -> T_i+1 is checked against the iteration's recorded sample and validity answers: at most one node per tree, nearest node, one bounded step toward the sample, rejected motions add nothing, RRT-Connect tree balancing and connect step; goal-bias counts over long runs for bias 0, p, 1; non-trivial = at least 3 transitions of which one added a node",
             _ => "every RRT* transition is checked with costs: cost = parent cost + edge, parent among nearest/neighbours and no dearer than via the nearest node (exactly cheapest in obstacle-free worlds), rewiring only to the new node, strictly cheaper, within the radius, validated, all other nodes untouched (and complete in obstacle-free worlds), recorded cost >= true branch length; RRT vs RRT* twin on the same seed; non-trivial = at least 3 transitions of which one added a node",
         };
-        format!("scenario i = space, world (incl. alphabet worlds that pad invalid alphabet states with a small ball), planner and seed, sampling either passthrough (the planner's seeded generator) or a script over a state alphabet (duplicates, seam and antipodal states, q/-q, near-parallel quaternions); prefix replay gives the tree after every iteration (depth 24 quick / 48 thorough); {own}; distinct = distinct scenario hash; distinct_tree_shapes counts parent-array shapes reached")
+        format!("indices below fixtures x sequences: EVERY sample sequence up to depth 4 (quick) / 5 (thorough) over a 4- (5-) state alphabet, for 12 fixtures (6 space kinds x {{alphabet world with a padded invalid alphabet state, obstacle-free}}) per planner kind; remaining indices: scenario i = space, world (incl. alphabet worlds that pad invalid alphabet states with a small ball), planner and seed, sampling either passthrough (the planner's seeded generator) or a script over a state alphabet (duplicates, seam and antipodal states, q/-q, near-parallel quaternions); prefix replay gives the tree after every iteration (depth 24 quick / 48 thorough); {own}; distinct = distinct scenario hash; distinct_tree_shapes counts parent-array shapes reached")
     }
     fn default_runs(&self, tier: Tier) -> u64 {
-        match tier {
-            Tier::Quick => 2_500,
-            Tier::Thorough => 40_000,
-        }
+        let (fx, per, _, _) = self.enum_layout(tier);
+        fx * per
+            + match tier {
+                Tier::Quick => 6_000,
+                Tier::Thorough => 60_000,
+            }
     }
     fn assumptions(&self) -> Vec<String> {
         vec![
@@ -269,6 +365,10 @@ impl Check for TreeProp {
     }
 
     fn generate(&self, seed: u64, index: u64, tier: Tier) -> Scenario {
+        let (fixtures, per, _, _) = self.enum_layout(tier);
+        if index < fixtures * per {
+            return self.enumerated(seed, index, tier);
+        }
         let mut rng = Xo::new(mix(seed, self.id, index));
         let kinds: Vec<PlannerKind> = match self.id {
             "C17" => vec![PlannerKind::RRTStar],
@@ -369,6 +469,9 @@ impl Check for TreeProp {
         }
         if !scn.sampling.script.is_empty() {
             rep.probe("scripted");
+        }
+        if scn.param("enumerated").is_some() {
+            rep.probe("enumerated_sequence");
         }
         if !px.deterministic {
             rep.probe("prefix_nondeterministic");
